@@ -1,11 +1,15 @@
 (* gen/Params.v -- numeric constants of the Rust source.  REGENERATED from /repo/src by
    driver/translate.py on every check run; the models take these as definitions. *)
-From Coq Require Import List ZArith Floats.
+From Coq Require Import List ZArith Floats Uint63.
 Definition POLYDIV_MAX : nat := 1000.
 Definition LAGUER_MR : nat := 8.
 Definition LAGUER_MT : nat := 10.
-Definition LAGUER_FRAC : list float := (0 :: 0.5 :: 0.25 :: 0.75 :: 0.13 :: 0.38 :: 0.62 :: 0.88 :: 1 :: nil)%float.
+Definition LAGUER_FRAC : list float := (0%float :: (Z.ldexp (PrimFloat.of_uint63 (Uint63.of_Z 1)) (-1)%Z) :: (Z.ldexp (PrimFloat.of_uint63 (Uint63.of_Z 1)) (-2)%Z) :: (Z.ldexp (PrimFloat.of_uint63 (Uint63.of_Z 3)) (-2)%Z) :: (Z.ldexp (PrimFloat.of_uint63 (Uint63.of_Z 1170935903116329)) (-53)%Z) :: (Z.ldexp (PrimFloat.of_uint63 (Uint63.of_Z 3422735716801577)) (-53)%Z) :: (Z.ldexp (PrimFloat.of_uint63 (Uint63.of_Z 5584463537939415)) (-53)%Z) :: (Z.ldexp (PrimFloat.of_uint63 (Uint63.of_Z 7926335344172073)) (-53)%Z) :: (Z.ldexp (PrimFloat.of_uint63 (Uint63.of_Z 1)) (0)%Z) :: nil).
 Definition NEWTON_MAX_ITER : nat := 20.
-Definition NEWTON_TOL : float := 1e-8%float.
-Definition NEWTON_DELTA : float := 1e-8%float.
-Definition MESH_SNAP : float := 1e-7%float.
+Definition NEWTON_TOL : float := (Z.ldexp (PrimFloat.of_uint63 (Uint63.of_Z 3022314549036573)) (-78)%Z).
+Definition NEWTON_DELTA : float := (Z.ldexp (PrimFloat.of_uint63 (Uint63.of_Z 3022314549036573)) (-78)%Z).
+Definition MESH_SNAP : float := (Z.ldexp (PrimFloat.of_uint63 (Uint63.of_Z 944473296573929)) (-73)%Z).
+(* the same constants as exact rationals (numerator, denominator) for the models over R / Qc *)
+Definition MESH_SNAP_Q : Z * positive := (1%Z, 10000000%positive).
+Definition NEWTON_TOL_Q : Z * positive := (1%Z, 100000000%positive).
+Definition NEWTON_DELTA_Q : Z * positive := (1%Z, 100000000%positive).
